@@ -5,7 +5,7 @@ from harness.families import ALL_FAMS, fam, sizes
 from harness.minijar import Storage, Jar
 from harness.treelib import TreeEnv, RefMap, walk_invariants
 from harness.props.c01 import gen_history
-from harness.props.c04 import f16_condition
+from harness.props.c04 import f16_condition, commit_detecting_f33
 
 PROPS_FILE = "Props/C05.v"
 MODEL_FILES = ["Model/RTree.v", "Model/TreeRun.v", "Model/Persist.v", "Model/PersistRun.v"]
@@ -82,6 +82,11 @@ def part_a(ctx, rng, n):
                     # everything after it would only re-report that finding
                     ctx.cov["histories_cut_at_F16_shape"] = ctx.cov.get("histories_cut_at_F16_shape", 0) + 1
                     break
+                if r < 0.5 and kind in ("BTree", "TreeSet"):
+                    if commit_detecting_f33(jar, t):
+                        # finding F33 of C04: the root's record now holds a stale-prone inline copy of its leaf
+                        ctx.cov["histories_cut_at_F33_commit"] = ctx.cov.get("histories_cut_at_F33_commit", 0) + 1
+                        break
                 if r < 0.25:
                     jar.commit()
                     jar.minimize()                      # everything becomes a ghost
@@ -138,6 +143,7 @@ def part_b(ctx, rng, n):
                 jar.commit()
                 outs = []
                 ncmp = [0]
+                f33_hit = [False]
 
                 def hook():
                     ncmp[0] += 1
@@ -174,8 +180,8 @@ def part_b(ctx, rng, n):
                             if f16_condition(None, t):
                                 # not committed: this shape is stored damaged (finding F16 of C04)
                                 ctx.cov["commits_skipped_at_F16_shape"] = ctx.cov.get("commits_skipped_at_F16_shape", 0) + 1
-                            else:
-                                jar.commit()
+                            elif commit_detecting_f33(jar, t):
+                                f33_hit[0] = True
                             r = ("ok", None)
                     except (KeyError, ValueError) as e:
                         r = (type(e).__name__,)
@@ -184,6 +190,8 @@ def part_b(ctx, rng, n):
                     finally:
                         SweepKey.hook = None
                     outs.append((op, k.n, r))
+                    if f33_hit[0]:
+                        break          # finding F33 of C04: everything after this commit would only re-report it
                     stk = sticky_nodes(jar)
                     if stk:
                         ctx.oracle_failure("%s:%s:sticky-after:%s" % (impl, kind, op), "%s%s/%s: %d node(s) still pinned after %s(%r) -> %r" % (fn, kind, impl, len(stk), op, k, r),
